@@ -55,6 +55,16 @@ def main():
             print('NO DEMO FOUND'); rep['error'] = 'no demo'; return finish(rep, D, False, sd, name, keep)
         rc0, o0 = run(demo_cmd, cwd=D, timeout=600)
         rep['ran'].append({'cmd': ' '.join(demo_cmd) + '  (unpatched)', 'rc': rc0, 'tail': o0[-400:]})
+        base_rc = {}
+        for p0 in sorted(set(os.path.dirname(m) for m in re.findall(r'^\+\+\+ b/(\S+\.go)', open(patch).read(), re.M))):
+            if not p0.startswith('bfe_tls'):
+                # baseline of the package's own tests without the demo file
+                tmpd = None
+                if demo_src and os.path.dirname(dst) == os.path.join(D, p0):
+                    tmpd = dst + '.off'; os.rename(dst, tmpd)
+                base_rc[p0] = run(['go', 'test', '-vet=off', '-count=1', './' + p0 + '/'], cwd=D, timeout=900)[0]
+                if tmpd:
+                    os.rename(tmpd, dst)
         rc, o = run('patch -p1 -s < ' + patch, cwd=D)
         rep['ran'].append({'cmd': 'patch -p1 < patch.diff', 'rc': rc, 'tail': o[-300:]})
         if rc != 0:
@@ -80,9 +90,9 @@ def main():
             fails = re.findall(r'^--- FAIL: (\S+)', ot, re.M)
             stable = set(l.split('::')[1] for l in json.load(open('/root/.vp/BASELINE.json'))['stable_pass'] if l.startswith('github.com/bfenetworks/bfe/' + p + '::'))
             bad = [f for f in fails if f in stable]
-            if rct != 0 and (bad or not fails):
+            if rct != 0 and (bad or not fails) and base_rc.get(p, 0) == 0:
                 tests_ok = False
-            rep['ran'].append({'cmd': ' '.join(cmd)[:200], 'rc': rct, 'stable_tests_failing': bad, 'tail': ot[-300:]})
+            rep['ran'].append({'cmd': ' '.join(cmd)[:200], 'rc': rct, 'stable_tests_failing': bad, 'unpatched_rc': base_rc.get(p), 'tail': ot[-300:]})
         confirmed = rc0 == 0 and rcb == 0 and rc1 != 0 and tests_ok
         rep['confirmed'] = confirmed
         rep['why_not'] = None if confirmed else 'demo_unpatched_rc=%d build_rc=%d demo_patched_rc=%d tests_ok=%s' % (rc0, rcb, rc1, tests_ok)
